@@ -4,7 +4,8 @@ package main
 //
 //	tasks <task>;<task>;… | adv            deterministic controller
 //	tasks <task>;<task>;… | rnd <seed>     random controller (PRNG seeded with <seed>)
-//	    <task> = <waits>/<map>, <waits> = `-` or `,`-separated indices of earlier tasks, <map> as for `sched`
+//	    <task> = <waits>/<map>[/n], <waits> = `-` or `,`-separated indices of earlier tasks, <map> as for
+//	    `sched`; `/n`: the body does not run the probe itself but submits a nested task (pip:run) that does
 //
 // Per case a fresh application is assembled exactly like /repo/app/modules/pipelinem/main_test.go
 // (terminalm, commonm, ocm, pipelinem on a MockupApp; the SharedMutex, Runner, TasksUnit are the ones
@@ -63,18 +64,20 @@ const settleMax = 500 * time.Millisecond
 var taskHangs int32
 
 type taskSpec struct {
-	waits []int
-	rows  []row
+	waits  []int
+	rows   []row
+	nested bool // the body does not run the probe itself: it submits a nested task (pip:run) that does
 }
 
 func parseTaskSpecs(t string) ([]taskSpec, error) {
 	var res []taskSpec
 	for i, part := range strings.Split(strings.TrimSpace(t), ";") {
 		wm := strings.Split(part, "/")
-		if len(wm) != 2 {
+		if len(wm) != 2 && !(len(wm) == 3 && wm[2] == "n") {
 			return nil, fmt.Errorf("bad task %q", part)
 		}
 		var sp taskSpec
+		sp.nested = len(wm) == 3
 		if wm[0] != "-" && wm[0] != "" {
 			for _, w := range strings.Split(wm[0], ",") {
 				n, err := strconv.Atoi(w)
@@ -98,6 +101,9 @@ func taskSpecsText(specs []taskSpec) string {
 	parts := make([]string, len(specs))
 	for i, sp := range specs {
 		parts[i] = joinWaits(sp.waits) + "/" + holdersText([][]row{sp.rows})
+		if sp.nested {
+			parts[i] += "/n"
+		}
 	}
 	return strings.Join(parts, ";")
 }
@@ -343,7 +349,7 @@ func opTasks(specs []taskSpec, mode string, seed uint64) (res string, trace stri
 
 	mapp, err := newPipelineApp()
 	if err != nil {
-		return "harness-error " + err.Error(), ""
+		return "harness-error " + err.Error(), tc.traceLine()
 	}
 	mapp.Terminal().SetCommand(terminal.NewCommand(terminal.CommandParams{Name: "probe:cs", Callback: tc.probe}))
 	var deps struct {
@@ -351,7 +357,7 @@ func opTasks(specs []taskSpec, mode string, seed uint64) (res string, trace stri
 		TasksUnit pipservices.TasksUnit `dependency:"PipTasksUnit"`
 	}
 	if err = mapp.DependencyProvider().InjectTo(&deps); err != nil {
-		return "harness-error " + err.Error(), ""
+		return "harness-error " + err.Error(), tc.traceLine()
 	}
 	root := mapp.Scopes().App()
 	cwd := mapp.Filespaces().CWD()
@@ -361,11 +367,17 @@ func opTasks(specs []taskSpec, mode string, seed uint64) (res string, trace stri
 		for k, w := range specs[i].waits {
 			wait[k] = taskName(w)
 		}
+		body := "probe:cs --t=" + strconv.Itoa(i)
+		if specs[i].nested {
+			// what a body starts belongs to the body: the nested task (empty lock map of its own) runs under
+			// the lock map of task i, which is released only after the scope of the body has drained
+			body = "pip:run --name=c --silent=true --body=<<EOFX\n" + body + "\nEOFX"
+		}
 		var rerr error
 		if p, v := hx.Guard(func() {
 			rerr = deps.Runner.Run(pipservices.Pip{
 				Context: pipservices.PipContext{
-					In:    gio.NewInput(strings.NewReader("probe:cs --t=" + strconv.Itoa(i))),
+					In:    gio.NewInput(strings.NewReader(body)),
 					Out:   gio.NewNilOutput(),
 					Err:   gio.NewNilOutput(),
 					CWD:   cwd,
@@ -549,6 +561,9 @@ func (tc *tcase) traceLine() string {
 		ivs = append(ivs, iv{t, tc.enter[t], e})
 	}
 	sort.Slice(ivs, func(i, j int) bool { return ivs[i].enter < ivs[j].enter })
+	if len(ivs) == 0 {
+		b.WriteString(" -") // no body was entered
+	}
 	for _, x := range ivs {
 		fmt.Fprintf(&b, " %d:%d:%d:%s", x.t, x.enter, x.exit, rowsText(tc.specs[x.t].rows))
 	}
@@ -564,30 +579,35 @@ func (tc *tcase) traceLine() string {
 func advFamily(k int) []taskSpec {
 	w := func(name string) row { return row{name, true} }
 	r := func(name string) row { return row{name, false} }
-	switch k % 8 {
+	t := func(waits []int, rows ...row) taskSpec { return taskSpec{waits: waits, rows: rows} }
+	n := func(waits []int, rows ...row) taskSpec { return taskSpec{waits: waits, rows: rows, nested: true} }
+	switch k % advVariants {
 	case 0: // the basic triangle
-		return []taskSpec{{nil, []row{w("a")}}, {nil, []row{w("m"), w("a")}}, {[]int{1}, []row{w("m")}}}
+		return []taskSpec{t(nil, w("a")), t(nil, w("m"), w("a")), t([]int{1}, w("m"))}
 	case 1: // D only reads the shared resource, B writes it
-		return []taskSpec{{nil, []row{w("a")}}, {nil, []row{w("a"), w("m")}}, {[]int{1}, []row{r("m")}}}
+		return []taskSpec{t(nil, w("a")), t(nil, w("a"), w("m")), t([]int{1}, r("m"))}
 	case 2: // B only reads the shared resource, D writes it
-		return []taskSpec{{nil, []row{w("a")}}, {nil, []row{r("m"), w("a")}}, {[]int{1}, []row{w("m"), w("z")}}}
+		return []taskSpec{t(nil, w("a")), t(nil, r("m"), w("a")), t([]int{1}, w("m"), w("z"))}
 	case 3: // chain: D waits for C, C waits for B; D and B share
-		return []taskSpec{{nil, []row{w("a")}}, {nil, []row{w("a"), w("m")}}, {[]int{1}, nil}, {[]int{2}, []row{w("m")}}}
+		return []taskSpec{t(nil, w("a")), t(nil, w("a"), w("m")), t([]int{1}), t([]int{2}, w("m"))}
 	case 4: // two blockers in a row (A on a, A2 on b), B needs a, b, m
-		return []taskSpec{{nil, []row{w("a")}}, {nil, []row{w("b")}}, {nil, []row{w("m"), w("b"), w("a")}},
-			{[]int{2}, []row{w("m")}}}
+		return []taskSpec{t(nil, w("a")), t(nil, w("b")), t(nil, w("m"), w("b"), w("a")), t([]int{2}, w("m"))}
 	case 5: // A is a reader of a, B writes a; a bystander reads m's neighbour
-		return []taskSpec{{nil, []row{r("a")}}, {nil, []row{w("a"), w("m")}}, {nil, []row{r("n")}},
-			{[]int{1, 2}, []row{w("m"), r("n")}}}
+		return []taskSpec{t(nil, r("a")), t(nil, w("a"), w("m")), t(nil, r("n")), t([]int{1, 2}, w("m"), r("n"))}
 	case 6: // two dependants of B, each sharing another resource with it
-		return []taskSpec{{nil, []row{w("a")}}, {nil, []row{w("a"), w("m"), w("n")}}, {[]int{1}, []row{w("m")}},
-			{[]int{1}, []row{w("n")}}}
-	default: // D waits for A and B
-		return []taskSpec{{nil, []row{w("a")}}, {nil, []row{w("a"), w("m")}}, {[]int{0, 1}, []row{w("m"), w("a")}}}
+		return []taskSpec{t(nil, w("a")), t(nil, w("a"), w("m"), w("n")), t([]int{1}, w("m")), t([]int{1}, w("n"))}
+	case 7: // D waits for A and B
+		return []taskSpec{t(nil, w("a")), t(nil, w("a"), w("m")), t([]int{0, 1}, w("m"), w("a"))}
+	case 8: // what a body starts runs under the body's lock map: nested bodies of two writers of m
+		return []taskSpec{n(nil, w("m")), n(nil, w("m"))}
+	case 9: // nested writer against plain reader and a nested dependant
+		return []taskSpec{n(nil, w("m"), r("a")), t(nil, r("m")), n([]int{0}, w("m"))}
+	default: // the triangle with nested bodies
+		return []taskSpec{n(nil, w("a")), n(nil, w("m"), w("a")), n([]int{1}, w("m"))}
 	}
 }
 
-const advVariants = 8
+const advVariants = 11
 
 func genTasksAdv(k int) string {
 	return "tasks " + taskSpecsText(advFamily(k)) + " | adv"
@@ -615,6 +635,7 @@ func genTasksRnd(r *hx.Rand) string {
 			}
 		}
 		specs[i].rows = genMap(r, names, np, writePct)
+		specs[i].nested = r.Intn(6) == 0
 		if len(specs[i].waits) > 0 && r.Intn(2) == 0 {
 			// share a resource with a prerequisite
 			p := specs[specs[i].waits[r.Intn(len(specs[i].waits))]]
